@@ -90,6 +90,10 @@ pub struct Script {
     pub f32_scalar: bool,
     /// when false, nothing is injected (the chain's own generator decides) — used for replay/record-only runs
     pub inject: bool,
+    /// record only these labels (None = everything)
+    pub keep: Option<&'static [&'static str]>,
+    /// abort the run (panic inside the hook, caught by the caller) when one transition builds more leaves than this
+    pub max_leaves: usize,
 }
 
 pub struct Recorded {
@@ -110,11 +114,11 @@ fn valid_u(x: f64, f32s: bool) -> f64 {
 
 /// Run `f` (one or more real NUTS transitions on this thread) with the script installed; returns the event stream.
 pub fn record_with<R>(script: Script, f: impl FnOnce() -> R) -> (Result<R, String>, Recorded) {
-    let state = Rc::new(RefCell::new((Vec::<Event>::new(), Vec::<Dec>::new(), 0usize, (0.0f64, 0.0f64), 0.0f64)));
+    let state = Rc::new(RefCell::new((Vec::<Event>::new(), Vec::<Dec>::new(), 0usize, (0.0f64, 0.0f64), 0.0f64, 0usize)));
     let st2 = state.clone();
     let old = verif::set_tap(Some(Box::new(move |label, vals| {
         let mut g = st2.borrow_mut();
-        let mut choose = |g: &mut (Vec<Event>, Vec<Dec>, usize, (f64, f64), f64), n: u32, kind: &str| -> u32 {
+        let mut choose = |g: &mut (Vec<Event>, Vec<Dec>, usize, (f64, f64), f64, usize), n: u32, kind: &str| -> u32 {
             let k = g.2;
             g.2 += 1;
             let c = script.prefix.get(k).copied().unwrap_or(0).min(n - 1);
@@ -159,7 +163,18 @@ pub fn record_with<R>(script: Script, f: impl FnOnce() -> R) -> (Result<R, Strin
                 _ => {}
             }
         }
-        g.0.push((label.to_string(), vals.to_vec()));
+        if label == "nuts.leaf" {
+            g.5 += 1;
+            if g.5 > script.max_leaves {
+                drop(g);
+                panic!("harness: runaway tree (more than {} leaves in one transition)", script.max_leaves);
+            }
+        } else if label == "nuts.end" {
+            g.5 = 0;
+        }
+        if script.keep.map(|k| k.contains(&label)).unwrap_or(true) {
+            g.0.push((label.to_string(), vals.to_vec()));
+        }
     })));
     let r = catch(f);
     verif::set_tap(old);
